@@ -1427,6 +1427,9 @@ class SuccessionDiagram:
             node["expanded"] = True
             return True
 
+        # Attractor data computed while the node had no successors is no longer valid.
+        self._clear_node_attractor_data(node_id)
+
         for m_trap in minimal_traps:
             m_id = self._ensure_node(node_id, m_trap)
             # Also expand the minimal trap space, since we know
@@ -1476,6 +1479,9 @@ class SuccessionDiagram:
             if node["expanded"]:
                 continue
 
+            # Attractor data computed while the node had no successors is no longer valid.
+            self._clear_node_attractor_data(node_id)
+
             skip_edges = 0
             for m_id, m_trap in trap_with_id:
                 if is_subspace(m_trap, node["space"]):
@@ -1494,6 +1500,18 @@ class SuccessionDiagram:
             print(f"Skipped {skipped_nodes} nodes.")
 
         return skipped_nodes
+
+    def _clear_node_attractor_data(self, node_id: int):
+        """
+        An internal method that erases the attractor data of a node. This must
+        be called whenever an unexpanded node receives successors, because
+        attractor data computed for an unexpanded node covers the whole
+        node space, including the spaces of the new successors.
+        """
+        node = cast(dict[str, Any], self.dag.nodes[node_id])
+        node["attractor_seeds"] = None
+        node["attractor_candidates"] = None
+        node["attractor_sets"] = None
 
     def _update_node_depth(self, node_id: int, parent_id: int):
         """
